@@ -114,7 +114,7 @@ fn prepare_db(srv: &Server, db: &str) {
 }
 
 fn db_dump(node: &Node, db: &str) -> BTreeMap<String, (String, i32, bool)> {
-    let mut d = node.dump().remove(db).unwrap_or_default();
+    let mut d = node.dump_db(db).unwrap_or_default();
     d.remove("$connections");
     d
 }
@@ -201,7 +201,7 @@ pub fn run_case(srv: &Server, case: &Case) -> Outcome {
     let mut conn = String::new();
     // (up to 30 s: slowness under load is not a finding)
     for _ in 0..15_000 {
-        conn = srv.node.dump().get(&db_http).and_then(|m| m.get("$connections")).map(|v| v.0.clone()).unwrap_or_else(|| "0".to_string());
+        conn = srv.node.dump_db(&db_http).and_then(|m| m.get("$connections").map(|v| v.0.clone())).unwrap_or_else(|| "0".to_string());
         if conn == "0" {
             break;
         }
@@ -264,7 +264,7 @@ pub fn run_ws_case(srv: &Server, ws_port: u16, case: &Case) -> Outcome {
     for _ in 0..4000 {
         dh = db_dump(&srv.node, &db_ws);
         dt = db_dump(&srv.node, &db_twin);
-        let conn = srv.node.dump().get(&db_ws).and_then(|m| m.get("$connections")).map(|v| v.0.clone()).unwrap_or_else(|| "0".to_string());
+        let conn = srv.node.dump_db(&db_ws).and_then(|m| m.get("$connections").map(|v| v.0.clone())).unwrap_or_else(|| "0".to_string());
         if dh == dt && conn == "0" {
             ok = true;
             break;
